@@ -298,9 +298,16 @@ func run(c Case) *hx.Outcome {
 	rs := storage.NewRetentionScanner(config.Storage{RetentionPeriod: period, RetentionSleep: time.Second}, w.Store)
 	rsDone := make(chan struct{})
 	go func() { rs.Start(w.Ctx); close(rsDone) }()
-	if !within(o, "harness", "SMTP listener ready", 5*time.Second, smtpReady) || !within(o, "harness", "POP3 listener ready", 5*time.Second, pop3Ready) {
-		w.Cancel()
-		return o
+	// Start-up is not what this property is about: a machine too busy to bring two listeners up
+	// in 30 s makes the case inconclusive (counted), not a violation.
+	for _, ready := range []chan struct{}{smtpReady, pop3Ready} {
+		select {
+		case <-ready:
+		case <-time.After(30 * time.Second):
+			o.Class("abandoned: the listeners were not ready within 30 s")
+			w.Cancel()
+			return o
+		}
 	}
 	smtpAddr, pop3Addr := w.SMTP.VerifAddr().String(), w.POP3.VerifAddr().String()
 	released := false
@@ -340,10 +347,17 @@ func run(c Case) *hx.Outcome {
 				heldIdx = i
 				select {
 				case <-gateBlocked:
-				case <-time.After(5 * time.Second):
-					gate.mu.Lock()
-					fail("harness", "the accepted POP3 session never wrote a log line; client %s; lines seen while armed: %q", cl.conn.LocalAddr(), gate.seen)
-					gate.mu.Unlock()
+				case <-time.After(30 * time.Second):
+					// the session to be held did not show up in the log (a machine too busy, or the
+					// line went by before the gate was armed): the case cannot be set up
+					o.Class("abandoned: the POP3 session to be held was not seen within 30 s")
+					w.Cancel()
+					release()
+					for _, k := range clients {
+						if k != nil {
+							_ = k.conn.Close()
+						}
+					}
 					return o
 				}
 				gate.know(cl.conn.LocalAddr().String())
@@ -378,7 +392,17 @@ func run(c Case) *hx.Outcome {
 		clients[i], open[i] = cl, true
 		if s.State == "held" {
 			heldIdx = i
-			if !within(o, "harness", "held session reaching the yield point", 5*time.Second, heldCh) {
+			select {
+			case <-heldCh:
+			case <-time.After(30 * time.Second):
+				o.Class("abandoned: the SMTP session to be held did not reach the yield point within 30 s")
+				w.Cancel()
+				release()
+				for _, k := range clients {
+					if k != nil {
+						_ = k.conn.Close()
+					}
+				}
 				return o
 			}
 			continue
